@@ -8,11 +8,18 @@ import parsecorr
 from framework import Result
 
 ID = 'C07'
-LEAN_TARGETS = ['TexSoupProofs.Properties.C07']
+LEAN_TARGETS = ['TexSoupProofs.Properties.C07', 'TexSoupProofs.Properties.C07b']
 THEOREMS = ['TexSoup.C07.' + n for n in ('reader_strict_tolerant', 'strict_implies_tolerant',
-                                         'tolerant_only_inserts', 'inserted_are_closers')]
-PARTIAL = ['clause (b) "a well-formed document that lost one closer fails strictly and parses tolerantly" needs '
-           'completeness of the reader on the grammar; explored by the oracle on generated documents',
+                                         'tolerant_only_inserts', 'inserted_are_closers')] + [
+    'TexSoup.C07b.' + n for n in ('reader_balanced', 'reader_env_balanced', 'strict_success_braces', 'strict_success_envs',
+                                  'lost_brace_strict_fails', 'lost_brace_strict_error', 'tolerant_succeeds',
+                                  'reader_tolerant_ok', 'lost_brace_tolerant_succeeds', 'lost_end_strict_fails',
+                                  'lost_end_strict_error', 'lost_end_tolerant_succeeds', 'lost_closer', 'name_tokens',
+                                  'wellNamed_of_tokens')]
+PARTIAL = ['clause (b) is proved for a lost closing brace and a lost \\end{name} (C07b.lost_closer: strict fails with a '
+           'diagnostic, tolerant succeeds) under token-level hypotheses (no math, no \\item, plainly named environments; for '
+           'the \\end case additionally no special or fixed-signature commands); a lost closing BRACKET is explored only: with a '
+           'stray `]` later in the text the clause is false as stated, so the oracle uses documents without stray brackets',
            'clause (c) is proved under the hypothesis bundle Hyp (finding F4b excluded)']
 TRUSTED = ['harness/gen_tables.py', 'correspondence harness (parsecorr.py, common.py), both tolerance modes',
            'modelled, not verified: control flow of reader.py, tokens.py, data.py serialisers']
